@@ -54,3 +54,7 @@ Example hostile_scans :
   | OutOfFuel => False
   end.
 Proof. vm_compute. repeat split. Qed.
+
+(** hypothesis of C07_lex_invalid_utf8_rejected: a stray continuation byte inside a string *)
+Example invalid_utf8_hypothesis : utf8_decode [34; 128; 34]%N = None.
+Proof. vm_compute. reflexivity. Qed.
